@@ -151,10 +151,12 @@ pub fn check_truetype(cx: &mut Ctx, case: &Case, out: &[u8]) -> Option<Vec<u16>>
                             }
                             None => {
                                 if let Some(other) = o2n.get(&q.gid) {
+                                    // the same source glyph would be present twice in the output: every
+                                    // retained or pulled-in glyph must appear exactly once
                                     cx.violation(
-                                        "composite",
-                                        "component-renumbering",
-                                        case.witness(format!("output glyph {} (source {}): source component {} is output glyph {} but the output composite refers to {}", k, old, q.gid, other, cn)),
+                                        "glyph-order",
+                                        "component-glyph-present-more-than-once",
+                                        case.witness(format!("output glyph {} (source {}): source component {} is already output glyph {} but the output composite refers to another glyph, {}", k, old, q.gid, other, cn)),
                                     );
                                     return None;
                                 }
